@@ -14,6 +14,8 @@
 
 #[path = "generated/login_dispatch.rs"]
 mod login_dispatch;
+#[path = "generated/expect_dispatch.rs"]
+mod expect_dispatch;
 
 use crate::util::{bytes_of, guarded, hex, install_quiet_panic_hook};
 use flate2::write::ZlibEncoder;
@@ -168,6 +170,14 @@ pub fn judge_fault(rec: &Value) -> Value {
                     }
                 }
             }
+        }
+    }
+    // fixed-size faults are also presented to the typed expect helper of the message itself
+    if outcome == "err_any" && rec["fk"] == "size" {
+        match guarded(|| expect_dispatch::expect(&exp, &name, &input.bytes)) {
+            Err(p) => return base("panic", json!({"entry": "expect helper", "panic": p, "input": hex(&input.bytes)})),
+            Ok(Some(Ok(()))) => return base("accepted", json!({"entry": "expect helper", "decoded_as": name, "input": hex(&input.bytes)})),
+            Ok(_) => {}
         }
     }
     let res = guarded(|| read_only(&exp, lv, &dir, &input.bytes));
